@@ -42,6 +42,10 @@ pub struct History {
     pub junk: Vec<u8>,
     pub nvals: u32,
     pub revs: Vec<RevPlan>,
+    /// also allow a number that was freed (or carries a generation above 0) to come back as a
+    /// compressed object, as writers that ignore generations do: the statement quantifies over all
+    /// partial maps number -> {direct, compressed, free}, not only over generation-conforming ones
+    pub relaxed_reuse: bool,
 }
 
 fn filt_name(f: StmFilter) -> &'static str {
@@ -79,7 +83,7 @@ impl History {
                     "objstm_filter": filt_name(r.objstm_filter), "trailing_ws": r.trailing_ws, "two_objstms": r.two_objstms, "move_root": r.move_root})
             })
             .collect();
-        json!({"junk": hex(&self.junk), "nvals": self.nvals, "revs": revs})
+        json!({"junk": hex(&self.junk), "nvals": self.nvals, "revs": revs, "relaxed_reuse": self.relaxed_reuse})
     }
     pub fn from_json(j: &J) -> Option<History> {
         let mut revs = vec![];
@@ -112,7 +116,7 @@ impl History {
                 move_root: r.get("move_root")?.as_bool()?,
             });
         }
-        Some(History { junk: unhex(j.get("junk")?.as_str()?)?, nvals: j.get("nvals")?.as_u64()? as u32, revs })
+        Some(History { junk: unhex(j.get("junk")?.as_str()?)?, nvals: j.get("nvals")?.as_u64()? as u32, revs, relaxed_reuse: j.get("relaxed_reuse").and_then(|x| x.as_bool()).unwrap_or(false) })
     }
 }
 
@@ -161,7 +165,7 @@ pub fn compile(h: &History) -> DocSpec {
                     status.insert(n, St::InUse);
                 }
                 Action::Compressed(v) => {
-                    if r.xref_stream && g == 0 && n != root {
+                    if r.xref_stream && (g == 0 || h.relaxed_reuse) && n != root {
                         want_compressed.push((n, v));
                         status.insert(n, St::InUse);
                     } else {
@@ -296,7 +300,7 @@ fn gen_history(rng: &mut Rng, tier: Tier) -> History {
         });
     }
     let junk = if rng.chance(1, 5) { (0..rng.usize(64)).map(|_| *rng.pick(b"xyz \n012")).collect() } else { vec![] };
-    History { junk, nvals, revs }
+    History { junk, nvals, revs, relaxed_reuse: rng.chance(1, 4) }
 }
 
 /// make every written value unique where its kind allows, so that a stale answer is attributable
@@ -523,6 +527,14 @@ impl C02 {
             }
             if progress {
                 continue;
+            }
+            if best.relaxed_reuse {
+                let mut c = best.clone();
+                c.relaxed_reuse = false;
+                if try_c(c, &mut best, &mut detail, &mut budget) {
+                    progress = true;
+                    continue;
+                }
             }
             if !best.junk.is_empty() {
                 let mut c = best.clone();
